@@ -26,6 +26,11 @@
 (* run loop is held up by the consumer (blocked in a send) with unread      *)
 (* input: the shape of the recorded finding "ESC timer counts from when the *)
 (* ESC is handled, not from when it arrived".                               *)
+(* returned: the reader has returned since Close was requested; CloseStops:  *)
+(* from then on the run loop does not wait in a further read.  CutStop tells *)
+(* what a run loop does that finds only part of a scalar: FALSE (as found)   *)
+(* it waits for the rest whatever happens, TRUE (repaired) it does not wait  *)
+(* once Close has been requested: the lead byte is a symbol of its own.      *)
 EXTENDS ParserLifeInput, TLC
 
 CONSTANTS MaxLen,        \* input length bound
@@ -37,7 +42,8 @@ CONSTANTS MaxLen,        \* input length bound
           FixedTimer,    \* TRUE: model of the repaired callback (whole callback under the mutex, owner check)
           Split,         \* TRUE: the input may contain the two-byte scalar (lead byte, trail byte)
           PeekStop,      \* TRUE: the ESC timer is stopped as soon as one byte is available (repaired readRune)
-          WireGaps       \* TRUE: a long gap may elapse on the wire while the run loop is blocked in a send
+          WireGaps,      \* TRUE: a long gap may elapse on the wire while the run loop is blocked in a send
+          CutStop        \* TRUE: no waiting for the rest of a scalar once Close has been requested (repaired readRune)
 
 Lead == 195              \* C3 A9 = U+00E9
 Trail == 169
@@ -59,12 +65,13 @@ VARIABLES inp,      \* the input: sequence of [c, gap]; chosen in Init
           buf, sendq, closed, panic,
           got,      \* items received by the consumer
           closeReq,
+          returned, \* Close has been requested and the reader has returned since
           clobber,  \* set when a callback resets a state it does not own
           pend,     \* repaired code: the last character handled was an ESC not yet reported (escPending)
           expired,  \* repaired code: the timer had run out when the last character was read (escExpired)
           finished  \* repaired code: the run loop is done with the input
 
-vars == <<inp, eofGap, avail, rd, rpc, sym, st, owner, mu, tm, last, buf, sendq, closed, panic, got, closeReq, clobber, pend, expired, finished>>
+vars == <<inp, eofGap, avail, rd, rpc, sym, st, owner, mu, tm, last, buf, sendq, closed, panic, got, closeReq, returned, clobber, pend, expired, finished>>
 
 (* well-formed UTF-8: a lead byte is followed by its trail byte, a trail byte follows a lead byte *)
 WellFormed(s) ==
@@ -79,7 +86,7 @@ Init ==
   /\ st = "ground" /\ owner = 0 /\ mu = 0
   /\ tm = [k \in 1..MaxLen |-> "idle"] /\ last = 0
   /\ buf = <<>> /\ sendq = <<>> /\ closed = FALSE /\ panic = FALSE
-  /\ got = <<>> /\ closeReq = FALSE /\ clobber = FALSE
+  /\ got = <<>> /\ closeReq = FALSE /\ returned = FALSE /\ clobber = FALSE
   /\ pend = FALSE /\ expired = FALSE /\ finished = FALSE
 
 EOFSYM == -1
@@ -118,13 +125,16 @@ Deliver ==
   \* a long gap: the parser has caught up and is waiting, or (WireGaps) it is held up by the consumer
   /\ NextGap = "long" => (Waiting \/ (WireGaps /\ Blocked(-1)))
   /\ avail' = avail + 1
+  \* a delivery is a return of the reader when silence preceded it (or nothing at all): what follows a short gap came
+  \* with the same return
+  /\ returned' = (returned \/ (closeReq /\ (avail = 0 \/ NextGap = "long")))
   /\ UNCHANGED <<inp, eofGap, rd, rpc, sym, st, owner, mu, tm, last, buf, sendq, closed, panic, got, closeReq, clobber, pend, expired, finished>>
 
 (* ---- run loop ------------------------------------------------------------- *)
 RTop ==
   /\ rpc = "top"
   /\ rpc' = IF closeReq THEN "exit" ELSE "read"
-  /\ UNCHANGED <<inp, eofGap, avail, rd, sym, st, owner, mu, tm, last, buf, sendq, closed, panic, got, closeReq, clobber, pend, expired, finished>>
+  /\ UNCHANGED <<inp, eofGap, avail, rd, sym, st, owner, mu, tm, last, buf, sendq, closed, panic, got, closeReq, returned, clobber, pend, expired, finished>>
 
 StopLast(t) == IF last > 0 /\ t[last] = "armed" THEN [t EXCEPT ![last] = "stopped"] ELSE t
 
@@ -134,8 +144,10 @@ RPeek ==
   /\ PeekStop /\ rpc = "read" /\ rd < avail /\ ~CanRead
   /\ expired' = (last > 0 /\ tm[last] # "armed")
   /\ tm' = StopLast(tm)
-  /\ rpc' = "fetch"
-  /\ UNCHANGED <<inp, eofGap, avail, rd, sym, st, owner, mu, last, buf, sendq, closed, panic, got, closeReq, clobber, pend, finished>>
+  /\ IF CutStop /\ closeReq
+     THEN rd' = rd + 1 /\ sym' = Lead /\ rpc' = "lock"     \* no waiting once Close has been requested: the byte as it is
+     ELSE rpc' = "fetch" /\ UNCHANGED <<rd, sym>>
+  /\ UNCHANGED <<inp, eofGap, avail, st, owner, mu, last, buf, sendq, closed, panic, got, closeReq, returned, clobber, pend, finished>>
 
 RRead ==
   /\ rpc \in {"read", "fetch"} /\ CanRead
@@ -145,7 +157,7 @@ RRead ==
      ELSE /\ expired' = (last > 0 /\ tm[last] # "armed")      \* Stop() reports whether the timer was still pending
           /\ tm' = StopLast(tm)                 \* readRune: escTimeout.Stop()
   /\ rpc' = "lock"
-  /\ UNCHANGED <<inp, eofGap, avail, st, owner, mu, last, buf, sendq, closed, panic, got, closeReq, clobber, pend, finished>>
+  /\ UNCHANGED <<inp, eofGap, avail, st, owner, mu, last, buf, sendq, closed, panic, got, closeReq, returned, clobber, pend, finished>>
 
 (* Item dispatched by the transition, or "none". *)
 Dispatch(s, c) ==
@@ -167,7 +179,7 @@ RHand ==
   /\ mu' = -1 /\ rpc' = "hand" /\ pend' = FALSE
   /\ st' = "ground" /\ owner' = 0
   /\ DoSend(-1, C0I(27))
-  /\ UNCHANGED <<inp, eofGap, avail, rd, sym, tm, last, closed, got, closeReq, clobber, expired, finished>>
+  /\ UNCHANGED <<inp, eofGap, avail, rd, sym, tm, last, closed, got, closeReq, returned, clobber, expired, finished>>
 
 (* Apply the transition for sym (mutex held or taken here). *)
 RLock ==
@@ -186,12 +198,12 @@ RLock ==
            IF it.t = "none" THEN rpc' = "top" /\ mu' = 0 /\ UNCHANGED <<buf, sendq, panic>>
            ELSE /\ mu' = -1 /\ rpc' = "sent"          \* emit while holding the mutex
                 /\ DoSend(-1, it)
-  /\ UNCHANGED <<inp, eofGap, avail, rd, sym, closed, got, closeReq, clobber, expired, finished>>
+  /\ UNCHANGED <<inp, eofGap, avail, rd, sym, closed, got, closeReq, returned, clobber, expired, finished>>
 
 RSent ==                                   \* the send completed: unlock
   /\ rpc = "sent" /\ ~Blocked(-1) /\ ~panic
   /\ mu' = 0 /\ rpc' = "top"
-  /\ UNCHANGED <<inp, eofGap, avail, rd, sym, st, owner, tm, last, buf, sendq, closed, panic, got, closeReq, clobber, pend, expired, finished>>
+  /\ UNCHANGED <<inp, eofGap, avail, rd, sym, st, owner, tm, last, buf, sendq, closed, panic, got, closeReq, returned, clobber, pend, expired, finished>>
 
 RExit ==                                   \* after the loop: stop the timer, send the end marker
   /\ rpc = "exit" /\ (FixedTimer => mu = 0)  \* the repaired code marks the end under the mutex
@@ -199,14 +211,14 @@ RExit ==                                   \* after the loop: stop the timer, se
   /\ finished' = TRUE
   /\ rpc' = "eofsent"
   /\ DoSend(-1, Item("eof"))
-  /\ UNCHANGED <<inp, eofGap, avail, rd, sym, st, owner, mu, last, closed, got, closeReq, clobber, pend, expired>>
+  /\ UNCHANGED <<inp, eofGap, avail, rd, sym, st, owner, mu, last, closed, got, closeReq, returned, clobber, pend, expired>>
 
 RClose ==
   /\ rpc = "eofsent" /\ ~Blocked(-1) /\ ~panic
   /\ closed' = TRUE
   /\ panic' = (sendq # <<>>)               \* senders blocked on a channel being closed panic
   /\ rpc' = "done"
-  /\ UNCHANGED <<inp, eofGap, avail, rd, sym, st, owner, mu, tm, last, buf, sendq, got, closeReq, clobber, pend, expired, finished>>
+  /\ UNCHANGED <<inp, eofGap, avail, rd, sym, st, owner, mu, tm, last, buf, sendq, got, closeReq, returned, clobber, pend, expired, finished>>
 
 (* ---- timer callback (as in the code) --------------------------------------- *)
 TFire(k) ==
@@ -214,25 +226,25 @@ TFire(k) ==
   /\ \/ Waiting /\ NextGap = "long"                     \* silence: the delay elapses
      \/ StallFire /\ rpc = "top"                          \* ... or the run loop stalls before its next iteration
   /\ tm' = [tm EXCEPT ![k] = "fired"]
-  /\ UNCHANGED <<inp, eofGap, avail, rd, rpc, sym, st, owner, mu, last, buf, sendq, closed, panic, got, closeReq, clobber, pend, expired, finished>>
+  /\ UNCHANGED <<inp, eofGap, avail, rd, rpc, sym, st, owner, mu, last, buf, sendq, closed, panic, got, closeReq, returned, clobber, pend, expired, finished>>
 
 TSend(k) ==
   /\ ~FixedTimer /\ tm[k] = "fired"
   /\ tm' = [tm EXCEPT ![k] = "sending"]
   /\ DoSend(k, C0I(27))
-  /\ UNCHANGED <<inp, eofGap, avail, rd, rpc, sym, st, owner, mu, last, closed, got, closeReq, clobber, pend, expired, finished>>
+  /\ UNCHANGED <<inp, eofGap, avail, rd, rpc, sym, st, owner, mu, last, closed, got, closeReq, returned, clobber, pend, expired, finished>>
 
 TLock(k) ==
   /\ ~FixedTimer /\ tm[k] = "sending" /\ ~Blocked(k) /\ ~panic /\ mu = 0
   /\ mu' = k /\ tm' = [tm EXCEPT ![k] = "locked"]
-  /\ UNCHANGED <<inp, eofGap, avail, rd, rpc, sym, st, owner, last, buf, sendq, closed, panic, got, closeReq, clobber, pend, expired, finished>>
+  /\ UNCHANGED <<inp, eofGap, avail, rd, rpc, sym, st, owner, last, buf, sendq, closed, panic, got, closeReq, returned, clobber, pend, expired, finished>>
 
 TSet(k) ==
   /\ ~FixedTimer /\ tm[k] = "locked"
   /\ clobber' = (clobber \/ ~(st = "escape" /\ owner = k))
   /\ st' = "ground" /\ owner' = 0 /\ mu' = 0
   /\ tm' = [tm EXCEPT ![k] = "done"]
-  /\ UNCHANGED <<inp, eofGap, avail, rd, rpc, sym, last, buf, sendq, closed, panic, got, closeReq, pend, expired, finished>>
+  /\ UNCHANGED <<inp, eofGap, avail, rd, rpc, sym, last, buf, sendq, closed, panic, got, closeReq, returned, pend, expired, finished>>
 
 (* ---- repaired callback: everything under the mutex, only for its own ESC --- *)
 FLock(k) ==
@@ -240,13 +252,13 @@ FLock(k) ==
   /\ IF pend /\ last = k /\ ~finished
      THEN /\ mu' = (IF EmitUnlocked THEN 0 ELSE k) /\ pend' = FALSE /\ tm' = [tm EXCEPT ![k] = "sending"] /\ DoSend(k, C0I(27))
      ELSE /\ tm' = [tm EXCEPT ![k] = "done"] /\ UNCHANGED <<mu, pend, buf, sendq, panic>>
-  /\ UNCHANGED <<inp, eofGap, avail, rd, rpc, sym, st, owner, last, closed, got, closeReq, clobber, expired, finished>>
+  /\ UNCHANGED <<inp, eofGap, avail, rd, rpc, sym, st, owner, last, closed, got, closeReq, returned, clobber, expired, finished>>
 FSet(k) ==
   /\ FixedTimer /\ tm[k] = "sending" /\ ~Blocked(k) /\ ~panic
   /\ EmitUnlocked => mu = 0             \* it takes the mutex again before resetting the state
   /\ clobber' = (clobber \/ ~(st = "escape" /\ owner = k))
   /\ st' = "ground" /\ owner' = 0 /\ mu' = 0 /\ tm' = [tm EXCEPT ![k] = "done"]
-  /\ UNCHANGED <<inp, eofGap, avail, rd, rpc, sym, last, buf, sendq, closed, panic, got, closeReq, pend, expired, finished>>
+  /\ UNCHANGED <<inp, eofGap, avail, rd, rpc, sym, last, buf, sendq, closed, panic, got, closeReq, returned, pend, expired, finished>>
 
 (* ---- consumer, closer ------------------------------------------------------ *)
 RecvStep ==
@@ -254,10 +266,10 @@ RecvStep ==
   /\ got' = Append(got, Head(buf))
   /\ IF sendq # <<>> THEN buf' = Append(Tail(buf), Head(sendq).it) /\ sendq' = Tail(sendq)
      ELSE buf' = Tail(buf) /\ UNCHANGED sendq
-  /\ UNCHANGED <<inp, eofGap, avail, rd, rpc, sym, st, owner, mu, tm, last, closed, panic, closeReq, clobber, pend, expired, finished>>
+  /\ UNCHANGED <<inp, eofGap, avail, rd, rpc, sym, st, owner, mu, tm, last, closed, panic, closeReq, returned, clobber, pend, expired, finished>>
 
 DoClose ==
-  /\ AllowClose /\ ~closeReq /\ closeReq' = TRUE
+  /\ AllowClose /\ ~closeReq /\ closeReq' = TRUE /\ returned' = FALSE
   /\ UNCHANGED <<inp, eofGap, avail, rd, rpc, sym, st, owner, mu, tm, last, buf, sendq, closed, panic, got, clobber, pend, expired, finished>>
 
 Finished == rpc = "done" /\ buf = <<>> /\ \A k \in 1..MaxLen : tm[k] \in {"idle", "stopped", "done"}
@@ -274,6 +286,11 @@ NoPanic == ~panic                              \* no send on (or blocked on) a c
 NoStateClobber == ~clobber                     \* a callback only resets the escape state of its own ESC
 All == got \o buf \o [i \in 1..Len(sendq) |-> sendq[i].it]
 ExactlyOneEOFLast == closed /\ ~panic => (Len(All) > 0 /\ All[Len(All)].t = "eof" /\ \A i \in 1..(Len(All) - 1) : All[i].t # "eof")
+
+(* "Close followed by the reader returning stops it": the run loop does not  *)
+(* wait in a further read (one that only a later return can end) once Close  *)
+(* has been requested and the reader has returned.                           *)
+CloseStops == ~(returned /\ Waiting /\ NextGap = "long")
 
 (* What the oracle prescribes for this input with its gaps (no Close).      *)
 (* The oracle's symbols are scalars: the lead byte contributes the gap       *)
